@@ -119,7 +119,7 @@ func errClass(ret *ssa.Return) int {
 			continue
 		}
 		bo, ok := ifi.Cond.(*ssa.BinOp)
-		if !ok || (bo.Op != token.NEQ && bo.Op != token.EQL) || bo.X != last {
+		if !ok || (bo.Op != token.NEQ && bo.Op != token.EQL) || !sameOrSameLoad(bo.X, last) {
 			continue
 		}
 		if k, ok := bo.Y.(*ssa.Const); !ok || !k.IsNil() {
@@ -452,4 +452,15 @@ func pushbackDepth(p *Program, ringType, readName, unreadName string, entries []
 		return 0, false, "no entry functions"
 	}
 	return a.closure(es), true, ""
+}
+
+// sameOrSameLoad: identical values, or two loads of the same address (a
+// variable captured by a closure is re-loaded at each use).
+func sameOrSameLoad(a, b ssa.Value) bool {
+	if a == b {
+		return true
+	}
+	ua, ok1 := a.(*ssa.UnOp)
+	ub, ok2 := b.(*ssa.UnOp)
+	return ok1 && ok2 && ua.Op == token.MUL && ub.Op == token.MUL && ua.X == ub.X
 }
